@@ -46,6 +46,8 @@ def run(ctx):
         ctx.bad("inv", "buffer-cursor-invariant:%s:%s:unproven" % (b.id.split("::")[-1], what), ctx.where(b, sp),
                 "the cursor invariant offset <= len(buffer) must hold after this %s; the bounds reasoning of every decoder built on the cursor depends on it" % what)
     ctx.floor("inv", "cursor invariant obligations", len(proven), 5 if ctx.config == "default" else 3)
+    # ---- local side conditions named by reviewed entries
+    side_rules(ctx, cg)
     # ---- side conditions of the reviewed entries (evaluated lazily, once)
     side = RV.SideConditions(ctx)
     counts = {}
@@ -101,6 +103,63 @@ def run(ctx):
     _termination(ctx, cg, reach)
 
 
+def side_rules(ctx, cg):
+    """S1: the error variants that the cache's clone helper declares unreachable are never built below the cache"""
+    P = ctx.P
+    entry = "erbium::dns::outquery::OutQuery::handle_query"
+    helper = [i for i in P.bodies if i.endswith("dns::cache::clone_out_reply")]
+    if entry not in P.bodies or not helper:
+        if ctx.config in ("default", "dns"):
+            ctx.bad("S1", "anchor", "", "OutQuery::handle_query / cache::clone_out_reply not found")
+        return
+    hb = P.bodies[helper[0]]
+    cfg = cfg_of(hb)
+    T = terms(P, hb)
+    adt = P.adt("erbium::dns::Error")
+    panics = {bb for bb, tm in hb.calls() if (callee_name(tm) or "").startswith(("core::panicking", "std::rt::begin_panic"))}
+    dead = set()
+    for bb, tm in hb.terms():
+        if tm["k"] != "switch":
+            continue
+        d = norm(T.at_term(tm["discr"], bb))
+        if d[0] != "discr":
+            continue
+        ty = oblig.Typer(P, hb).of(d[1]) or ""
+        if not oblig._strip_ref(ty).endswith("dns::Error"):
+            continue
+        for i, v in enumerate(adt["variants"]):
+            for e in discr_edges(cfg, bb, i):
+                if e[1] in panics or (cfg.reachable_from(e[1]) & panics and len(cfg.succ[e[1]]) <= 1 and _straight_to_panic(cfg, e[1], panics)):
+                    dead.add(v["name"])
+    ctx.floor("S1", "variants declared unreachable by the cache", len(dead), 3)
+    reach = cg.reachable([entry])
+    built = {}
+    for b, bb, idx, s in find_aggs(P, "dns::Error"):
+        if b.id in reach or (b.parent and b.parent in reach):
+            built.setdefault(s["rv"]["variant"], ctx.where(b, s["sp"]))
+    for fid in reach:
+        b = P.bodies.get(fid)
+        if b is None:
+            continue
+        for _, k, _ in body_consts(b):
+            f = k.get("fn", "")
+            if f.startswith("erbium::dns::Error::"):
+                built.setdefault(f.split("::")[-1], ctx.where(b))
+    for v in sorted(dead):
+        ctx.check(v not in built, "S1", "never-built-below-the-cache:%s" % v, built.get(v, ctx.where(hb)),
+                  "clone_out_reply panics on Error::%s, so nothing the cache calls may build it" % v)
+
+
+def _straight_to_panic(cfg, bb, panics):
+    for _ in range(8):
+        if bb in panics:
+            return True
+        if len(cfg.succ[bb]) != 1:
+            return False
+        bb = cfg.succ[bb][0]
+    return False
+
+
 def _short(P, D, s):
     k = oblig.site_key(P, D, s)
     return k.split("@", 1)[1][:70] if "@" in k else k[:70]
@@ -137,6 +196,34 @@ def _termination(ctx, cg, reach):
                     rv = s.get("rv")
                     if bb in loop and rv and rv["k"] == "bin" and rv["op"] in ("SubWithOverflow", "AddWithOverflow", "Sub", "Add", "Shr") and "k" in rv["b"]:
                         why = "counter"
+            # (e) padding loop: runs while len(x) % k != 0 and appends to something each round
+            if why is None:
+                grows = any(bb in loop and (callee_name(tm) or "").rsplit("::", 1)[-1] in ("push", "serialise", "extend_from_slice", "push_u8") for bb, tm in b.calls())
+                for bb, tm in b.terms():
+                    if bb in loop and tm["k"] == "switch" and any(t not in loop for _, t in cfg.switch_edges(bb)):
+                        d = norm(T.at_term(tm["discr"], bb))
+                        if grows and any(y[0] == "bin" and y[1] == "Rem" and norm(y[3])[0] == "const" and isinstance(norm(y[3])[1], int) and norm(y[3])[1] > 0
+                                         and any(oblig._len_like(z) is not None for z in subterms(y[2])) for y in subterms(d)):
+                            why = "pads-to-a-multiple"
+            # (f) descends an owned structure: the loop variable is replaced by a field/payload of its previous value,
+            #     and the exit test looks at that same value
+            if why is None:
+                recs = set()
+                for bb, idx, st in b.stmts():
+                    if bb in loop and "rv" in st and len(st["p"]) == 1:
+                        t = norm(T.rvalue(st["rv"], bb, idx))
+                        for alt in (t[1] if t[0] == "phi" else (t,)):
+                            y, steps = alt, 0
+                            while isinstance(y, tuple) and y[0] in ("payload", "field", "deref"):
+                                y = y[2] if y[0] == "payload" else y[1]
+                                steps += 1
+                            if steps and isinstance(y, tuple) and y[0] == "rec":
+                                recs.add(y)
+                for bb, tm in b.terms():
+                    if recs and bb in loop and tm["k"] == "switch" and any(t not in loop for _, t in cfg.switch_edges(bb)):
+                        d = norm(T.at_term(tm["discr"], bb))
+                        if any(y in recs for y in subterms(d)):
+                            why = "descends-an-owned-structure"
             # (d) yield points: a service loop that awaits (handled by (b) for named awaits); coroutine yields
             if why is None and any(b.blocks[x]["term"] and b.blocks[x]["term"]["k"] == "yield" for x in loop):
                 why = "awaits"
@@ -150,11 +237,12 @@ def _termination(ctx, cg, reach):
                 else:
                     ctx.bad("term", key, ctx.where(b), "cannot see what bounds this loop: no finite iterator, no input-consuming call, no constant-step counter")
     ctx.floor("term", "loops in scope", n, 40 if ctx.config == "default" else 8)
-    # recursion: every cycle in the call graph restricted to the scope must shrink its argument or carry fuel
-    scope_set = set(reach)
+    # recursion: every function that calls itself (exactly: same resolved instance) must shrink its argument or carry fuel.
+    # Calls through a trait on a generic element type (Vec<T>::serialise -> T::serialise) recurse over the finite type, not the input.
     rec = set()
     for r in reach:
-        if r in cg.out.get(r, ()):   # direct recursion
+        b = P.bodies[r]
+        if any(callee_name(tm) == r for _, tm in b.calls()):
             rec.add(r)
     for r in sorted(rec):
         b = P.bodies[r]
